@@ -774,11 +774,48 @@ def public_functions() -> dict:
     return out
 
 
+def tz_child_failures() -> list:
+    """section_misc and section_dst (durations, timestamps) once more in a child interpreter whose LOCAL time zone is not
+    UTC (TZ=America/New_York): the wire value of a timestamp is an instant, the zone the process runs in must not matter."""
+    import json
+    import os
+    import subprocess
+    import sys
+    import tempfile
+
+    from ..engine import HarnessError
+
+    with tempfile.TemporaryDirectory(prefix="kv-c11-") as d:
+        out = os.path.join(d, "out.json")
+        code = ("import json,sys,time\nassert time.tzname[0] != 'UTC' and time.localtime(0).tm_hour != 0, time.tzname\n"
+                "from kv.props import c11\nfrom kv.engine import Ctx\nt = c11.Tally()\nctx = Ctx(prop='C11', tier='quick', seed=1)\n"
+                "from kv import kioapi as K\n"
+                "for sec in (c11.section_misc, c11.section_dst):\n"
+                "    try:\n        sec(t, ctx)\n"
+                "    except Exception as e:\n"
+                "        sig = K.exc_signature(e)\n"
+                "        if sig.endswith('@?'): raise\n"
+                "        t.fail('section-raised:' + sig, f'{sec.__name__}: a call the section expects to succeed raised {e!r}', {})\n"
+                "json.dump({'evals': t.evals, 'failures': [[s, m] for s, (m, _c) in t.failures.items()]}, open(sys.argv[1], 'w'))")
+        env = {**os.environ, "TZ": "America/New_York"}
+        r = subprocess.run([sys.executable, "-c", code, out], capture_output=True, text=True, timeout=900, env=env,
+                           cwd=os.path.dirname(os.path.dirname(os.path.dirname(os.path.abspath(__file__)))))
+        if r.returncode != 0 or not os.path.exists(out):
+            raise HarnessError(f"TZ child failed (exit {r.returncode}): {r.stderr[-800:]}")
+        doc = json.load(open(out))
+        return doc["evals"], [(f"local-zone-not-utc:{s}", "[process time zone America/New_York] " + m) for s, m in doc["failures"]]
+
+
 def run(ctx: Ctx) -> Report:
     rep = Report(prop=ID, level="exploration", rule=RULE)
     t = Tally()
     for sec in SECTIONS:
         sec(t, ctx)
+    n_tz, tz_fails = tz_child_failures()
+    t.evals += n_tz
+    rep.extra["evaluations_in_non_utc_child"] = n_tz
+    for sig, msg in tz_fails:
+        t.fail(sig, msg, {"fn": "tz-child"})
     rep.evaluations = t.evals
     rep.nontrivial = t.nontrivial
     for sig, (msg, case) in t.failures.items():
@@ -805,6 +842,8 @@ def run(ctx: Ctx) -> Report:
 
 
 def replay(case):
+    if case.get("fn") == "tz-child":
+        return tz_child_failures()[1]
     # re-run the section that owns the function; cheap enough in quick mode
     rep = run(Ctx(prop=ID, tier="quick", seed=1))
     return [(f.signature, f.message) for f in rep.failures.values()]
